@@ -440,6 +440,7 @@ func checkC18(ctx *Ctx, r *Report) {
 	c18NilnessOfCollections(ctx, r)
 	c18NilnessSelfTest(ctx, r)
 	c18SpreadFieldsCopied(ctx, r)
+	c18FourthHunt(ctx, r)
 }
 
 // c18IRCopies runs the copy analysis over the DeepCopy methods of the IR: the properties that rest on "each language /
@@ -766,6 +767,16 @@ func c18Payloads(ctx *Ctx, r *Report) {
 	sort.Strings(names)
 	r.Note("payload fields: %v", names)
 	sites := 0
+	exemptSites := 0
+	copiedTypes := deepCopiedValueTypes(ctx)
+	copiedByValueCopier := func(t types.Type) bool {
+		for _, c := range copiedTypes {
+			if types.Identical(c, t) {
+				return true
+			}
+		}
+		return false
+	}
 	for _, p := range ctx.Pkgs {
 		info := p.TypesInfo
 		for _, file := range p.Syntax {
@@ -825,7 +836,13 @@ func c18Payloads(ctx *Ctx, r *Report) {
 							if isDirectMapField(info, base, pay) {
 								continue
 							}
-							r.Bad("copycheck/payload-mutation", ctx.FuncName(fobj)+" "+exprString(l), as.Pos(), fmt.Sprintf("in-place store through the shared `any` payload %s: DeepCopy shares payloads, so the original of a copy is modified too", f.Name()))
+							// a value of a type deepCopyValue copies (see copycheck/value-copier-total) is not
+							// shared between a copy and its original: storing into it is storing into this IR only
+							if at := payloadAssertedType(info, base, alias); at != nil && copiedByValueCopier(at) {
+								exemptSites++
+								continue
+							}
+							r.Bad("copycheck/payload-mutation", ctx.FuncName(fobj)+" "+exprString(l), as.Pos(), fmt.Sprintf("in-place store through the `any` payload %s, into a value of a type deepCopyValue does not copy: the original of a copy is modified too", f.Name()))
 						}
 					}
 					return true
@@ -895,6 +912,7 @@ func c18Payloads(ctx *Ctx, r *Report) {
 	}
 	r.Count("callee write facts matched against payload arguments", calls)
 	r.Count("indexed/deref store sites scanned", sites)
+	r.Count("stores into payload values of a type deepCopyValue copies", exemptSites)
 	r.Floor("indexed/deref store sites scanned", 50)
 	r.OK("copycheck/payload-mutation", "all of cog", token.NoPos, fmt.Sprintf("%d indexed/dereferencing stores scanned; none goes through a payload value", sites))
 }
@@ -943,6 +961,88 @@ func payloadAccess(info *types.Info, e ast.Expr, pay map[*types.Var]bool, alias 
 			return nil
 		}
 	}
+}
+
+// payloadAssertedType: the type a payload value is asserted to on the way from the stored location down to the payload
+// field (`x.Hints[k].(DisjunctionType).Branches[i]` → DisjunctionType), following local aliases; nil without assertion.
+func payloadAssertedType(info *types.Info, e ast.Expr, alias map[types.Object]ast.Expr) types.Type {
+	var asserted types.Type
+	seen := map[types.Object]bool{}
+	for {
+		e = ast.Unparen(e)
+		switch x := e.(type) {
+		case *ast.Ident:
+			o := objOf(info, x)
+			a, ok := alias[o]
+			if !ok || seen[o] {
+				return asserted
+			}
+			seen[o] = true
+			e = a
+		case *ast.SelectorExpr:
+			e = x.X
+		case *ast.IndexExpr:
+			e = x.X
+		case *ast.SliceExpr:
+			e = x.X
+		case *ast.StarExpr:
+			e = x.X
+		case *ast.TypeAssertExpr:
+			if x.Type != nil {
+				asserted = info.TypeOf(x.Type)
+			}
+			e = x.X
+		default:
+			return asserted
+		}
+	}
+}
+
+// deepCopiedValueTypes: the dynamic types ast.deepCopyValue has a case for, when that case returns something else than
+// the value it was given.
+func deepCopiedValueTypes(ctx *Ctx) []types.Type {
+	fn := ctx.LookupFunc("internal/ast", "deepCopyValue")
+	fd, p := ctx.DeclOf(fn)
+	if fd == nil || fd.Body == nil {
+		return nil
+	}
+	info := p.TypesInfo
+	var out []types.Type
+	ast.Inspect(fd.Body, func(n ast.Node) bool {
+		ts, ok := n.(*ast.TypeSwitchStmt)
+		if !ok {
+			return true
+		}
+		var bound string
+		if as, ok := ts.Assign.(*ast.AssignStmt); ok && len(as.Lhs) == 1 {
+			bound = exprString(as.Lhs[0])
+		}
+		for _, st := range ts.Body.List {
+			cc, ok := st.(*ast.CaseClause)
+			if !ok || len(cc.List) == 0 {
+				continue
+			}
+			copies := false
+			for _, b := range cc.Body {
+				ast.Inspect(b, func(k ast.Node) bool {
+					if rs, ok := k.(*ast.ReturnStmt); ok && len(rs.Results) == 1 && exprString(rs.Results[0]) != bound {
+						copies = true
+					}
+					return true
+				})
+			}
+			if !copies {
+				continue
+			}
+			for _, e := range cc.List {
+				if t := info.TypeOf(e); t != nil {
+					out = append(out, t)
+				}
+			}
+		}
+		return false
+	})
+	return out
 }
 
 // checkProcessCopiesFirst: compiler.Passes.Process must DeepCopy its parameter
@@ -1497,4 +1597,331 @@ func c18SpreadFieldsCopied(ctx *Ctx, r *Report) {
 	})
 	r.Count("types rebuilt from the parts of an existing type", n)
 	r.Floor("types rebuilt from the parts of an existing type", 2)
+}
+
+// c18FourthHunt — fourth hunt:
+//   - the veneers are cog's other transformation chain: Rewriter.ApplyTo hands the rules a deep copy of every builder
+//     it was given (several rules append in place to the slices of the builders), like Passes.Process for the schemas;
+//   - BuilderVisitor.Visit does not store into the slice it was given (GenerateBuilderNilChecks receives a Context by
+//     value and returns one: the caller's builders must stay as they were);
+//   - DisjunctionToType puts each branch of a union twice in the struct it creates — as the type of a field, and in the
+//     disjunction kept as a hint: the field gets a deep copy; and a renaming pass whose struct handler rewrites that
+//     hint visits its branches (they are no longer the very types of the fields).
+func c18FourthHunt(ctx *Ctx, r *Report) {
+	n := 0
+	// (a)
+	if fn := ctx.LookupMethod("internal/veneers/rewrite", "Rewriter", "ApplyTo"); fn == nil {
+		r.Undecided("anchor lost: rewrite.Rewriter.ApplyTo")
+	} else if fd, p := ctx.DeclOf(fn); fd != nil {
+		info := p.TypesInfo
+		sig := fn.Type().(*types.Signature)
+		var param *types.Var
+		for i := 0; i < sig.Params().Len(); i++ {
+			if sl, ok := sig.Params().At(i).Type().Underlying().(*types.Slice); ok && namedName(sl.Elem()) == "Builder" {
+				param = sig.Params().At(i)
+			}
+		}
+		if param == nil {
+			r.Undecided("anchor changed: Rewriter.ApplyTo takes no slice of builders")
+		} else {
+			parents := parentMap(fd)
+			isDeepCopyRecv := func(e ast.Expr) bool {
+				sel, ok := parents[e].(*ast.SelectorExpr)
+				if !ok || sel.X != e || sel.Sel.Name != "DeepCopy" {
+					return false
+				}
+				_, isCall := parents[sel].(*ast.CallExpr)
+				return isCall
+			}
+			var bad []string
+			elems := map[types.Object]bool{}
+			ast.Inspect(fd.Body, func(m ast.Node) bool {
+				id, ok := m.(*ast.Ident)
+				if !ok || objOf(info, id) != param {
+					return true
+				}
+				switch par := parents[id].(type) {
+				case *ast.CallExpr:
+					if f, ok := ast.Unparen(par.Fun).(*ast.Ident); ok && f.Name == "len" {
+						return true
+					}
+				case *ast.RangeStmt:
+					if par.X == ast.Expr(id) {
+						if v, ok := par.Value.(*ast.Ident); ok {
+							elems[objOf(info, v)] = true
+						}
+						return true
+					}
+				case *ast.IndexExpr:
+					if par.X == ast.Expr(id) && isDeepCopyRecv(par) {
+						return true
+					}
+				}
+				bad = append(bad, ctx.Pos(id.Pos()))
+				return true
+			})
+			ast.Inspect(fd.Body, func(m ast.Node) bool {
+				id, ok := m.(*ast.Ident)
+				if !ok || !elems[objOf(info, id)] || info.Defs[id] != nil {
+					return true
+				}
+				if !isDeepCopyRecv(id) {
+					bad = append(bad, ctx.Pos(id.Pos()))
+				}
+				return true
+			})
+			n++
+			r.Check(len(bad) == 0, "copycheck/veneers-work-on-copy", "rewrite.Rewriter.ApplyTo hands its rules copies of the builders", fd.Pos(), "every use of the builders it is given is a DeepCopy of one of them (or their number)",
+				"ApplyTo uses the builders it was given otherwise than through DeepCopy ("+strings.Join(bad, ", ")+"): the rules append in place to Constructor.Assignments / Options / Factories, whose arrays FromAST leaves with spare capacity — `initialize mode = ts-mode` applied for TypeScript overwrites the `go-mode` of the builders returned for Go")
+		}
+	}
+	// (b)
+	if fn := ctx.LookupMethod("internal/ast", "BuilderVisitor", "Visit"); fn == nil {
+		r.Undecided("anchor lost: ast.BuilderVisitor.Visit")
+	} else if fd, p := ctx.DeclOf(fn); fd != nil {
+		info := p.TypesInfo
+		sig := fn.Type().(*types.Signature)
+		var param *types.Var
+		for i := 0; i < sig.Params().Len(); i++ {
+			if namedName(sig.Params().At(i).Type()) == "Builders" {
+				param = sig.Params().At(i)
+			}
+		}
+		if param == nil {
+			r.Undecided("anchor changed: BuilderVisitor.Visit takes no Builders")
+		} else {
+			var bad []string
+			// the argument, and the local variables that are the same slice (x := builders, x := builders[:n])
+			same := map[types.Object]bool{param: true}
+			for changed := true; changed; {
+				changed = false
+				ast.Inspect(fd.Body, func(m ast.Node) bool {
+					as, ok := m.(*ast.AssignStmt)
+					if !ok || len(as.Lhs) != len(as.Rhs) {
+						return true
+					}
+					for i, rhs := range as.Rhs {
+						e := ast.Unparen(rhs)
+						if sl, ok := e.(*ast.SliceExpr); ok {
+							e = ast.Unparen(sl.X)
+						}
+						if rid, ok := e.(*ast.Ident); ok && same[objOf(info, rid)] {
+							if lid, ok := as.Lhs[i].(*ast.Ident); ok && objOf(info, lid) != nil && !same[objOf(info, lid)] {
+								same[objOf(info, lid)] = true
+								changed = true
+							}
+						}
+					}
+					return true
+				})
+			}
+			ast.Inspect(fd.Body, func(m ast.Node) bool {
+				switch x := m.(type) {
+				case *ast.AssignStmt:
+					for _, l := range x.Lhs {
+						if ix, ok := ast.Unparen(l).(*ast.IndexExpr); ok {
+							if id, ok := ast.Unparen(ix.X).(*ast.Ident); ok && same[objOf(info, id)] {
+								bad = append(bad, "store into "+exprString(l)+" at "+ctx.Pos(l.Pos()))
+							}
+						}
+					}
+				case *ast.ReturnStmt:
+					if len(x.Results) > 0 {
+						if id, ok := ast.Unparen(x.Results[0]).(*ast.Ident); ok && same[objOf(info, id)] {
+							bad = append(bad, "the argument itself is returned at "+ctx.Pos(x.Pos()))
+						}
+					}
+				}
+				return true
+			})
+			n++
+			r.Check(len(bad) == 0, "copycheck/visitor-leaves-its-input", "ast.BuilderVisitor.Visit leaves the builders it is given", fd.Pos(), "the visited builders go into a slice of their own",
+				"BuilderVisitor.Visit overwrites its argument ("+strings.Join(bad, "; ")+"): GenerateBuilderNilChecks, which receives a Context by value, puts the nil checks of Java into the caller's builders — and into the Context it returned for Go")
+		}
+	}
+	// (c)
+	if fn := ctx.LookupMethod("internal/ast/compiler", "DisjunctionToType", "processDisjunction"); fn == nil {
+		r.Undecided("anchor lost: compiler.DisjunctionToType.processDisjunction")
+	} else if fd, p := ctx.DeclOf(fn); fd != nil {
+		info := p.TypesInfo
+		ranges := 0
+		var shared []string
+		ast.Inspect(fd.Body, func(m ast.Node) bool {
+			rs, ok := m.(*ast.RangeStmt)
+			if !ok || !strings.HasSuffix(exprString(rs.X), ".Branches") {
+				return true
+			}
+			v, ok := rs.Value.(*ast.Ident)
+			if !ok {
+				return true
+			}
+			branch := objOf(info, v)
+			// does this loop build struct fields?
+			builds := false
+			ast.Inspect(rs.Body, func(k ast.Node) bool {
+				if c, ok := k.(*ast.CallExpr); ok {
+					if f := callee(info, c); f != nil && f.Name() == "NewStructField" {
+						builds = true
+					}
+				}
+				return true
+			})
+			if !builds {
+				return true
+			}
+			ranges++
+			// the branch reaches NewStructField as it is, or through a plain copy of the value
+			plain := map[types.Object]bool{branch: true}
+			ast.Inspect(rs.Body, func(k ast.Node) bool {
+				if as, ok := k.(*ast.AssignStmt); ok && len(as.Lhs) == 1 && len(as.Rhs) == 1 {
+					if rid, ok := ast.Unparen(as.Rhs[0]).(*ast.Ident); ok && plain[objOf(info, rid)] {
+						if lid, ok := as.Lhs[0].(*ast.Ident); ok {
+							plain[objOf(info, lid)] = true
+						}
+					}
+				}
+				return true
+			})
+			ast.Inspect(rs.Body, func(k ast.Node) bool {
+				c, ok := k.(*ast.CallExpr)
+				if !ok {
+					return true
+				}
+				if f := callee(info, c); f == nil || f.Name() != "NewStructField" || len(c.Args) < 2 {
+					return true
+				}
+				if id, ok := ast.Unparen(c.Args[1]).(*ast.Ident); ok && plain[objOf(info, id)] {
+					shared = append(shared, exprString(c.Args[1])+" at "+ctx.Pos(c.Pos()))
+				}
+				return true
+			})
+			return true
+		})
+		if ranges == 0 {
+			r.Undecided("anchor changed: DisjunctionToType.processDisjunction builds no field from the branches")
+		} else {
+			n++
+			r.Check(len(shared) == 0, "copycheck/duplicated-branch-independent", "compiler.DisjunctionToType.processDisjunction duplicates the branches into fields", fd.Pos(), "the type of a field is a deep copy of the branch, which stays in the hint",
+				"the type of a field is the branch itself, copied by value ("+strings.Join(shared, ", ")+"): field and hint share one *RefType — PrefixObjectNames renames the hint's branches only through that alias, and a DeepCopy taken between the two passes (two chains) leaves the hint with branches [pkg.A, pkg.B] next to the mapping {a: ZzA, b: ZzB}")
+		}
+	}
+	c18HintedBranchesVisited(ctx, r)
+	r.Count("hunted clauses of the copies (4th hunt)", n)
+	r.Floor("hunted clauses of the copies (4th hunt)", 3)
+}
+
+// c18HintedBranchesVisited: a renaming pass whose struct handler rewrites the disjunction kept in the hint of a struct
+// generated from a union hands the branches of that disjunction to the visitor: they are values of their own, not the
+// types of the fields.
+func c18HintedBranchesVisited(ctx *Ctx, r *Report) {
+	if cp := ctx.Pkg("internal/ast/compiler"); cp != nil {
+		info := cp.TypesInfo
+		visits := func(start *types.Func) bool {
+			seen := map[*types.Func]bool{}
+			var rec func(fn *types.Func, depth int) bool
+			rec = func(fn *types.Func, depth int) bool {
+				if fn == nil || seen[fn] || depth > 1 {
+					return false
+				}
+				seen[fn] = true
+				fd, _ := ctx.DeclOf(fn)
+				if fd == nil || fd.Body == nil {
+					return false
+				}
+				ok := false
+				ast.Inspect(fd.Body, func(m ast.Node) bool {
+					switch x := m.(type) {
+					case *ast.RangeStmt:
+						if strings.HasSuffix(exprString(x.X), ".Branches") {
+							ast.Inspect(x.Body, func(k ast.Node) bool {
+								if c, isCall := k.(*ast.CallExpr); isCall {
+									if f := callee(info, c); f != nil && strings.HasPrefix(f.Name(), "Visit") {
+										ok = true
+									}
+								}
+								return true
+							})
+						}
+					case *ast.CallExpr:
+						if f := callee(info, x); f != nil && f.Pkg() == cp.Types && rec(f, depth+1) {
+							ok = true
+						}
+					}
+					return true
+				})
+				return ok
+			}
+			return rec(start, 0)
+		}
+		readsHint := func(fn *types.Func) bool {
+			fd, _ := ctx.DeclOf(fn)
+			if fd == nil || fd.Body == nil {
+				return false
+			}
+			found := false
+			ast.Inspect(fd.Body, func(m ast.Node) bool {
+				if id, ok := m.(*ast.Ident); ok {
+					if c, ok := info.Uses[id].(*types.Const); ok && c.Name() == "HintDiscriminatedDisjunctionOfRefs" {
+						found = true
+					}
+				}
+				return true
+			})
+			return found
+		}
+		storesReferredType := func(fn *types.Func) bool {
+			fd, _ := ctx.DeclOf(fn)
+			if fd == nil || fd.Body == nil {
+				return false
+			}
+			found := false
+			ast.Inspect(fd.Body, func(m ast.Node) bool {
+				if as, ok := m.(*ast.AssignStmt); ok {
+					for _, l := range as.Lhs {
+						if strings.HasSuffix(exprString(l), ".ReferredType") {
+							found = true
+						}
+					}
+				}
+				return true
+			})
+			return found
+		}
+		passes := 0
+		for _, file := range cp.Syntax {
+			ast.Inspect(file, func(m ast.Node) bool {
+				cl, ok := m.(*ast.CompositeLit)
+				if !ok || namedName(info.TypeOf(cl)) != "Visitor" {
+					return true
+				}
+				var onStruct, onRef *types.Func
+				for _, el := range cl.Elts {
+					kv, ok := el.(*ast.KeyValueExpr)
+					if !ok {
+						continue
+					}
+					sel, ok := kv.Value.(*ast.SelectorExpr)
+					if !ok {
+						continue
+					}
+					h, _ := info.Uses[sel.Sel].(*types.Func)
+					switch exprString(kv.Key) {
+					case "OnStruct":
+						onStruct = h
+					case "OnRef":
+						onRef = h
+					}
+				}
+				if onStruct == nil || onRef == nil || !readsHint(onStruct) || !storesReferredType(onRef) {
+					return true
+				}
+				passes++
+				r.Check(visits(onStruct), "copycheck/duplicated-branch-independent", ctx.FuncName(onStruct)+" visits the branches kept in the hint", cl.Pos(), "the handler hands each branch of the hinted disjunction to the visitor",
+					ctx.FuncName(onStruct)+" rewrites the mapping of the hinted disjunction and not its branches: they are no longer the types of the fields (each has its own copy), so they keep the old names — the Go / Java unmarshallers are generated from branches that designate objects that no longer exist")
+				return true
+			})
+		}
+		r.Count("renaming passes that rewrite the hinted disjunction", passes)
+		r.Floor("renaming passes that rewrite the hinted disjunction", 2)
+	}
 }
